@@ -1030,9 +1030,10 @@ class Executor:
             q = p.fork()
             qctx = self.ctx(q, env)
             qctx.old_env, qctx.old_heap, qctx.old_ghost = env, pre_heap, pre_ghost
+            # the condition under which the callee may raise speaks about the state at the call
+            cond = self.spec.bool(cl.ast, qctx)
             self.havoc_modifies(c, env, q, exceptional=True)
             qctx.heap, qctx.ghost = q.heap, q.ghost
-            cond = self.spec.bool(cl.ast, qctx)
             if q.assume(cond, ('callexc', node.lineno, short, cls)):
                 for src in getattr(c, 'exc_ensures', []) or []:
                     # what the callee guarantees about the state it leaves behind when it raises
@@ -1060,6 +1061,9 @@ class Executor:
         nctx.env = env2
         for cl in c.ensures:
             p.add(self.spec.bool(cl.ast, nctx))
+        for gname, src in (getattr(c, 'defines', None) or {}).items():
+            # observer ghosts: the contract exposes a value of the callee to its callers by definition
+            p.ghost[gname] = self.spec.ev(ast.parse(src, mode='eval').body, nctx)
         self.type_facts(res, rt, p)
         if p.feasible():
             out.append(Res(p, res))
